@@ -21,7 +21,9 @@ from . import core
 
 KIND = {"ninf": -np.inf, "zero": 0.0, "m1": -1.0, "inf": np.inf, "one": 1.0}
 IMAGES = ["clean", "noisy", "fixedpoint", "neighbour", "wall"]     # env.support and not env.flat
-VARIANT_OF_W2 = {2: 0, 1: 1, 0: 2}    # grid spacing 1, 1/2, 1/4: floor(2 w) for w = one spacing
+# width of the candidate in CELLS that realises the spec's w2 = floor(2 w / h) (the fit region grows by 1 + w2 cells,
+# whatever the physical size h of a cell: F23)
+WIDTH_CELLS_OF_W2 = {0: 0.3, 1: 0.75, 2: 1.0, 3: 1.6, 4: 2.0}
 
 
 def make_grid(fam, variant):
@@ -96,7 +98,8 @@ def scenario(rec, variant, image):
         for cidx in fam["constraints"]:
             if cidx <= dim:
                 cpos[cidx - 1] = [0.3, 0.1, 0.2][cidx - 1] * h
-    cw = {"none": None, "given": 1.0 * w, "zero": 0.0}[req["width"]]     # "given": 2 w / h is an integer for dyadic h
+    w2 = int(rec.get("env", {}).get("w2", 2))
+    cw = {"none": None, "given": WIDTH_CELLS_OF_W2[w2] * h, "zero": 0.0}[req["width"]]
     if image == "fixedpoint":
         cand = mk(cls, pos.copy(), R, cw if cw is not None else None, amps.copy())
         src = mk(truth_cls, pos, R, cw if cw is not None else h, amps)
@@ -148,13 +151,22 @@ class Proxy:
         return getattr(self.real, name)
 
     def least_squares(self, fun, x0, bounds=(-np.inf, np.inf), **kw):
+        # the callable is only WATCHED, never called by the proxy: an extra evaluation (e.g. at the returned optimum)
+        # would leave the fitted object in a state the real call sequence never produces
         x0 = np.array(x0, float)
-        r0 = np.asarray(fun(x0))
-        c0 = float(np.sum(r0**2))
-        res = self.real.least_squares(fun, x0, bounds=bounds, **kw)
-        c1 = float(np.sum(np.asarray(fun(res.x)) ** 2))
+        seen = []
+
+        def watched(x):
+            r = fun(x)
+            seen.append((np.array(x, float), float(np.sum(np.asarray(r) ** 2)), int(np.asarray(r).size)))
+            return r
+
+        res = self.real.least_squares(watched, x0, bounds=bounds, **kw)
+        first = seen[0]   # the start vector (moved into the interior by the solver if it sits on a bound, e.g. width 0)
+        c1 = float(np.sum(np.asarray(res.fun) ** 2))
         self.calls.append({"x0": x0.copy(), "lo": np.array(bounds[0], float), "hi": np.array(bounds[1], float),
-                           "c0": c0, "c1": c1, "x": np.array(res.x), "nres": int(r0.size)})
+                           "c0": first[1], "c1": c1, "x": np.array(res.x), "nres": first[2],
+                           "last_evaluated": seen[-1][0], "nfev": len(seen)})
         return res
 
 
@@ -162,7 +174,7 @@ def region_and_deviation(grid, cand_promoted, width, field, levels_fn):
     from scipy import ndimage
 
     mask = cand_promoted._get_phase_field(grid, dtype=bool)
-    mask = ndimage.binary_dilation(mask, iterations=1 + int(2 * width))
+    mask = ndimage.binary_dilation(mask, iterations=1 + int(2 * width / grid.typical_discretization))
     data = field.data[mask]
     vmin, vmax = levels_fn(data)
 
@@ -241,6 +253,13 @@ def run_case(rec, variant, image):
         for k, i in enumerate(free_pos):
             if i not in fam["periodic"] and res.position[i - 1] != c["x"][k]:
                 fails.append(f"coordinate {i} is not periodic but differs from the solver's result ({res.position[i - 1]!r} vs {c['x'][k]!r})")
+        # WriteBack: every fitted parameter of the returned droplet IS the solver's result (not, say, the last vector the
+        # solver happened to evaluate)
+        flat = np.asarray(res._data_array, float)
+        if len(c["x"]) >= len(rec["free"]):
+            for k, i in enumerate(rec["free"]):
+                if i > dim and i - 1 < len(flat) and flat[i - 1] != c["x"][k]:
+                    fails.append(f"parameter {i} of the returned droplet differs from the solver's result ({flat[i - 1]!r} vs {c['x'][k]!r})")
     if field.data.tobytes() != before_img:
         fails.append("image modified")
     # ---- the fit region is the documented one: candidate's binary image dilated 1 + floor(2 w) times
@@ -251,8 +270,8 @@ def run_case(rec, variant, image):
         wr = pr.interface_width if pr.interface_width is not None else grid.typical_discretization
         pr = pr.copy()
         pr.interface_width = wr
-        iters = rec.get("iters") or 1 + int(2 * wr)
-        if iters != 1 + int(2 * wr):
+        iters = rec.get("iters") or 1 + int(2 * wr / grid.typical_discretization)
+        if iters != 1 + int(2 * wr / grid.typical_discretization):
             raise core.MachineryError(f"scenario does not realise the spec's w2: iters {iters}, width {wr}")
         region = ndimage.binary_dilation(pr._get_phase_field(grid, dtype=bool), iterations=iters)
         if int(region.sum()) != proxy.calls[0]["nres"]:
@@ -336,9 +355,8 @@ def run(out: core.Outcome) -> None:
     cases = []
     for idx, rec in enumerate(r.printed):
         env = rec["env"]
-        variants = [VARIANT_OF_W2[env["w2"]]]
-        if rec["req"]["width"] == "zero":          # a sharp candidate: w2 = 0 on every grid
-            variants = [idx % 3] if out.tier == "quick" else [0, 1, 2]
+        # every request on grids of spacing 1, 1/2, 1/4: the region rule counts cells, not lengths
+        variants = [idx % 3] if out.tier == "quick" else [0, 1, 2]
         if not env["support"]:
             images = ["tiny"]
         elif env["flat"]:
